@@ -451,10 +451,34 @@ def run(tier, seed):
     eb = svz.EarlyStopConverter.from_request_proto(svz.EarlyStopConverter.to_request_proto(ereq))
     if set(eb.trial_ids) != {1, 3}:
       viol('EarlyStopRequest differs after the wire', {'trial_ids': list(eb.trial_ids)})
-    eds = pythia.EarlyStopDecisions([pythia.EarlyStopDecision(id=2, reason='r', should_stop=False), pythia.EarlyStopDecision(id=5, reason='q', should_stop=True)], vz.MetadataDelta())
-    edb = svz.EarlyStopConverter.from_decisions_proto(svz.EarlyStopConverter.to_decisions_proto(eds))
-    if [(x.id, x.should_stop) for x in edb.decisions] != [(2, False), (5, True)]:
-      viol('EarlyStopDecisions differ after the wire', {})
+    # batches of early-stopping decisions: ids, reasons (unicode, separators), verdicts, with and without a predicted final
+    # measurement in every order, algorithm metadata for the study and for trials
+    def gen_pred():
+      if r.random() < 0.5:
+        return None
+      return vz.Measurement({nm_: r.choice([0.0, 1.5, -2.0, 1e-9]) for nm_ in r.sample(['m', 'm2', 'é'], r.randrange(0, 3))},
+                            steps=r.choice([0, 3, 10]), elapsed_secs=r.choice([0.0, 2.5, 0.25]))
+    decs = [pythia.EarlyStopDecision(id=r.randrange(1, 50), reason=r.choice(['r', 'q:1', 'é', 'a b']), should_stop=r.random() < 0.5,
+                                     predicted_final_measurement=gen_pred()) for _ in range(r.choice([1, 2, 2, 3, 5]))]
+    delta = vz.MetadataDelta()
+    if r.random() < 0.5:
+      delta.on_study.ns('algo')['k'] = 'v'
+      delta.on_trials[decs[0].id].ns('algo').ns('')['k2'] = ''
+    eds = pythia.EarlyStopDecisions(decs, delta)
+    ep1 = svz.EarlyStopConverter.to_decisions_proto(eds)
+    edb = svz.EarlyStopConverter.from_decisions_proto(ep1)
+    canon_m = lambda m_: None if m_ is None else (sorted((k_, v_.value) for k_, v_ in m_.metrics.items()), m_.steps, m_.elapsed_secs)
+    canon_d = lambda ds_: [(x.id, x.reason, x.should_stop, canon_m(x.predicted_final_measurement)) for x in ds_.decisions]
+    rep.case({'early_stop_decisions': len(decs), 'predictions': [x.predicted_final_measurement is not None for x in decs]},
+             len({x.predicted_final_measurement is None for x in decs}) == 2)
+    if canon_d(edb) != canon_d(eds):
+      viol('EarlyStopDecisions differ after the wire', {'sent': repr(canon_d(eds))[:400], 'received': repr(canon_d(edb))[:400]})
+    elif svz.EarlyStopConverter.to_decisions_proto(edb) != ep1:
+      viol('second conversion of EarlyStopDecisions is not identical', {'sent': repr(canon_d(eds))[:400]})
+    mdd = lambda dl_: (sorted((str(ns_), k_, v_) for ns_ in dl_.on_study.namespaces() for k_, v_ in dl_.on_study.abs_ns(ns_).items()),
+                       sorted((t_, str(ns_), k_, v_) for t_, md_ in dl_.on_trials.items() for ns_ in md_.namespaces() for k_, v_ in md_.abs_ns(ns_).items()))
+    if mdd(edb.metadata) != mdd(eds.metadata):
+      viol('metadata of EarlyStopDecisions differs after the wire', {'sent': repr(mdd(eds.metadata))[:300], 'received': repr(mdd(edb.metadata))[:300]})
   C.settle_broken(rep, broke, concrete)
   return rep.finish()
 
